@@ -768,7 +768,8 @@ def oracle_fit_structure(mon, a0, b0, fl_rfi, fl_mef, out):
     with np.errstate(all='ignore'):
         bm = np.asarray(beads_model(x), dtype=float)
     fin = np.isfinite(bm) & np.isfinite(y)
-    tolv = 1e-12 * np.maximum(np.abs(y), params[2])
+    # exp(m*log(x)+b) and e^b*x^m differ by ~|m*log(x)+b|*eps relatively (up to ~1e-13 for huge exponents)
+    tolv = 1e-9 * np.abs(y) + 1e-12 * params[2]
     mon.chk(bool(np.all(np.abs(bm[fin] - (y[fin] - params[2])) <= tolv[fin] + 1e-300)), 'fit:beads-model-identity', **d)
     ok = np.array_equal(np.asarray(fl_rfi, dtype=float), a0, equal_nan=True) and \
         np.array_equal(np.asarray(fl_mef, dtype=float), b0, equal_nan=True)
